@@ -437,7 +437,8 @@ class Executor:
       exc = payload
       ctx = self.ctx(exc=exc)
       for cl in c.exc_ensures:
-        self.path.oblige(f'{q}/raises/{cl.label}', cl.fn(ctx), cl.props)
+        self.path.oblige(f'{q}/raises/{cl.label}', cl.fn(ctx), cl.props,
+                         meta={'exc': repr(exc), 'note': exc.note})
       matched = []
       for case in c.raises:
         is_case = sym.exc_sub(exc.cls, sym.exc_const(case.exc))
@@ -530,6 +531,11 @@ class Executor:
       self.exec_stmt(s)
 
   def exec_stmt(self, s):
+    for pred, why in self.contract.abstract_stmts:
+      if self.depth == 0 and pred(s):
+        # statement-level abstraction: the variables it assigns become arbitrary
+        self.havoc_locals(extract.assigned_names([s]), 'abs')
+        return
     m = getattr(self, 'st_' + type(s).__name__, None)
     if m is None:
       self.oos(f'statement {type(s).__name__}', s)
@@ -629,11 +635,6 @@ class Executor:
     raise ContinueSig()
 
   def st_If(self, s):
-    for pred, why in self.contract.abstract_stmts:
-      if pred(s):
-        # statement-level abstraction: the variables it assigns become arbitrary
-        self.havoc_locals(extract.assigned_names([s]), 'abs')
-        return
     if self.decide_truth(self.ev(s.test), s.test):
       self.exec_block(s.body)
     else:
@@ -839,6 +840,16 @@ class Executor:
       return v
     if isinstance(v, VDict):
       return self.dict_iter(v, 'keys')
+    if isinstance(v, VObj):
+      # an opaque iterable: some finite sequence of opaque items; producing the
+      # next item may raise (e.g. a parser hitting a syntax error)
+      n = self.path.fresh_const('itlen', sym.IntS)
+      self.path.assume(n >= 0)
+      item = sym.ufun('iter_item', sym.Val, sym.IntS, sym.Val)
+      it = Iter(n, lambda j, v=v: VObj(item(v.e, j)))
+      it.may_raise = True
+      it.source = v
+      return it
     if isinstance(v, VOpt):
       self.path.oblige(f'{self.contract.qual}/safety/iter_not_none#{getattr(node, "lineno", 0)}',
                        z3.Not(v.is_none))
@@ -908,6 +919,11 @@ class Executor:
       ctx = self.loop_ctx(it)
       for cl in spec.invariants:
         path.assume(cl.fn(ctx, k))
+      if is_for and getattr(it, 'may_raise', False) and \
+          path.choose(2, 'iterator-raises') == 1:
+        cls = path.fresh_const('exccls', sym.ExcCls)
+        raise PyRaise(VExc(cls, ident=path.fresh_const('exc', sym.Val),
+                           note='raised while fetching the next item of an opaque iterator'))
       if is_for:
         self.assign(s.target, self.assume_wf(it.at(k)))
       else:
@@ -936,6 +952,11 @@ class Executor:
       ctx = self.loop_ctx(it)
       for cl in spec.invariants:
         path.assume(cl.fn(ctx, k))
+      if is_for and getattr(it, 'may_raise', False) and \
+          path.choose(2, 'iterator-raises-at-end') == 1:
+        cls = path.fresh_const('exccls', sym.ExcCls)
+        raise PyRaise(VExc(cls, ident=path.fresh_const('exc', sym.Val),
+                           note='raised while fetching the next item of an opaque iterator'))
       if not is_for:
         if self.decide_truth(self.ev(s.test), s.test):
           raise PathEnd()
@@ -1166,6 +1187,11 @@ class Executor:
                       self.ev(node.right), node)
 
   def binop(self, op, a, b, node):
+    if isinstance(b, VOpt):
+      self.path.oblige(f'{self.contract.qual}/safety/operand_not_none#{node.lineno}',
+                       z3.Not(b.is_none))
+      self.path.assume(z3.Not(b.is_none))
+      b = b.inner
     if isinstance(a, VInt) and isinstance(b, VInt):
       if op == 'Add':
         return VInt(a.e + b.e)
@@ -1936,7 +1962,9 @@ class ContractCM:
       ex.path.assume(cl.fn(ctx))
     hook = getattr(self.c, 'translate_exc', None)
     if hook:
-      return bool(hook(ex, ctx, exc))
+      new_exc = hook(ex, ctx, exc)
+      if new_exc is not None and new_exc is not exc:
+        raise PyRaise(new_exc)
     return False
 
 
